@@ -11,6 +11,9 @@
 #include <fstream>
 #include <iostream>
 #include <boost/format.hpp>
+#ifdef HEX_VERIF
+#include <functional>
+#endif
 
 #include "hex.hpp"
 #include "hexsimio.hpp"
@@ -78,6 +81,21 @@ public:
     io(in, out), truncateInputs(true), out(out),
     running(true), tracing(false), lastPC(0), cycles(0),
     maxCycles(maxCycles) {}
+
+#ifdef HEX_VERIF
+  // Verification hooks (off by default): access to the architectural state and
+  // an observer invoked after every executed instruction; returning false
+  // stops the run after that instruction.
+  uint32_t &verifPc() { return pc; }
+  uint32_t &verifAreg() { return areg; }
+  uint32_t &verifBreg() { return breg; }
+  uint32_t &verifOreg() { return oreg; }
+  uint32_t *verifMemory() { return memory.data(); }
+  int &verifExitCode() { return exitCode; }
+  bool &verifRunning() { return running; }
+  size_t &verifCycles() { return cycles; }
+  std::function<bool(Processor&)> verifObserver;
+#endif
 
   void setTracing(bool value) { tracing = value; }
   void setTruncateInputs(bool value) { truncateInputs = value; }
@@ -356,6 +374,11 @@ public:
           throw std::runtime_error("invalid instruction");
       }
       cycles++;
+#ifdef HEX_VERIF
+      if (verifObserver && !verifObserver(*this)) {
+        break;
+      }
+#endif
     }
     return exitCode;
   }
